@@ -5,6 +5,8 @@
 package prepare
 
 import (
+	"strings"
+
 	"github.com/roddhjav/apparmor.d/pkg/paths"
 	"github.com/roddhjav/apparmor.d/pkg/prebuild"
 )
@@ -27,7 +29,8 @@ func (p Ignore) Apply() ([]string, error) {
 	for _, name := range []string{"main", prebuild.Distribution} {
 		for _, ignore := range prebuild.Ignore.Read(name) {
 			profile := prebuild.Root.Join(ignore)
-			if profile.NotExist() {
+			// A bare name is a profile name, whatever an earlier run left in the build root
+			if profile.NotExist() || !strings.Contains(ignore, "/") {
 				files, err := prebuild.RootApparmord.ReadDirRecursiveFiltered(nil, paths.FilterNames(ignore))
 				if err != nil {
 					return res, err
